@@ -26,6 +26,18 @@ theorem loc_from_req_src : loc_from_req_conds = locFromReqConds := by decide
 theorem get_conds_src : get_conds = "ok | cr.isECSDeclined | ok" := by decide
 theorem get_keys_src : get_keys = "cr, true" := by decide
 theorem cache_key_cond_src : cache_key_cond = "respIsECSDependent" := by decide
+/-- `toCacheKey` hashes (after the host) type and class as 16-bit values, the DO flag, the IPv6 flag
+of the mapped subnet's address (`keyHead`), then — for the ECS-aware cache — every byte of that
+address and the prefix length (`ekeyBytes`), else the opt-out flag (`nkeyBytes`). -/
+theorem key_qtype_src : key_qtype_args = "buf[:2], cr.qType" := by decide
+theorem key_qclass_src : key_qclass_args = "buf[2:4], cr.qClass" := by decide
+theorem key_do_src : key_do_rhs = "mathutil.BoolToNumber[byte](cr.reqDO)" := by decide
+theorem key_fam_src : key_fam_rhs = "mathutil.BoolToNumber[byte](addr.Is6())" := by decide
+theorem key_addr_of_subnet_src : key_addr_rhs = "cr.subnet.Addr()" := by decide
+theorem key_head_src : key_head_args = "buf[:]" := by decide
+theorem key_addr_src : key_addr_args = "addr.AsSlice()" := by decide
+theorem key_bits_src : key_bits_args = "byte(cr.subnet.Bits())" := by decide
+theorem key_declined_src : key_declined_args = "mathutil.BoolToNumber[byte](cr.isECSDeclined)" := by decide
 /-- (fix) `setECS` removes every other ECS option of the message. -/
 theorem set_ecs_strip_src : set_ecs_strip = "1" := by decide
 theorem rm_ecs_opts_src : rm_ecs_opts_args = "opt.Option, isECSOpt" := by decide
